@@ -110,7 +110,15 @@ META = {
         "group tree is a chain of depth n-1) stacked along y, mirrored along x, and as two-glyph vertical columns with "
         "detect_vertical, each analysed directly with boxes_flow {0.5,-1,1,None} under the full oracle (evaluated without "
         "recursion) and fed through a generated one-page PDF to extract_text_to_fp for text, xml and html (xml: n textbox "
-        "elements 0..n-1 and a layout tree holding each id once), recursion limit left at the default; "
+        "elements 0..n-1 and a layout tree holding each id once), recursion limit left at the default (n=1200 only with boxes_flow 0.5 directly and through the xml route); "
+        "plus the family huge (both tiers): page boxes, and boxes of analysed figures, that are huge (10^6, 10^11, 2^40; also with a "
+        "negative origin) in exactly one dimension or in both, holding 2 or 3 two-glyph boxes far apart along the huge "
+        "dimension(s), boxes_flow {0.5,None,-1,1}, full oracle, termination judged by a counted budget of 2*10^7 Plane grid "
+        "steps; plus the family device-forms (both tiers): generated PDFs interpreted through PDFPageAggregator (laparams None / "
+        "all_texts False / True) whose page shows two glyphs, a Form XObject (two glyphs, a rectangle, optionally a nested form "
+        "with a glyph and a rectangle) and an image XObject, for 5 form /BBox values (3 of them degenerate) x 4 form /Matrix x 4 "
+        "cm (singular ones included): every glyph, figure, image and shape shown must occur exactly once under its own figure; "
+        ""
         "non-trivial = the result tree contains a container with >= 2 members (a line "
         "with 2 glyphs, a box with 2 lines or a group). states = glyph sequences (nodes of the sequence tree), "
         "transitions = analyses run, traces = analyses whose result tree passed through the complete invariant walk."
@@ -119,7 +127,8 @@ META = {
     "assumptions": [
         "glyphs are built directly as LTChar with a stub font; that PDFPageAggregator feeds the same objects is C05/C11's subject",
         "page box fixed at (0,0,100,100), figure box fixed; larger sequences than the bound are not explored",
-        "termination is judged by a counted budget on iterations of the box-merging loop (the only unbounded loop), not by time",
+        "termination is judged by counted budgets, not by time: iterations of the box-merging loop (the only unbounded loop) everywhere, "
+        "and in the huge family also the number of Plane grid steps (pdfminer.utils.drange wrapped by the harness)",
         "ties between equal box distances are broken by id() (memory address) in group_textboxes; the harness substitutes a "
         "first-asked counter for the name `id` inside pdfminer.layout so that runs are reproducible (address dependence is C12's subject)",
         "numbering 0..n-1 is judged per layout container (page; figure when all_texts)",
@@ -242,6 +251,13 @@ def exc_signature(e, deep=False):
     return f"C08/{'deep-chain' if deep else 'exception'}:{type(e).__name__}@{fn}"
 
 
+def _bbox_sig(kind, bbox):
+    """a bounding box that is not the union of its members'; diagnosed cause: clamped at utils.INF = 2**31 - 1"""
+    if any(abs(v) == 2147483647 for v in bbox):
+        return f"C08/bbox-not-union:{kind}:clamped-at-INF=2^31-1"
+    return f"C08/bbox-not-union:{kind}"
+
+
 class Walk:
     """Evaluates the invariants on one analysed layout container; collects problems as (signature, expected, observed)."""
 
@@ -274,7 +290,7 @@ class Walk:
             return ""
         u = _union(glyphs)
         if tuple(ln.bbox) != u or (ln.x0, ln.y0, ln.x1, ln.y1) != u or ln.width != u[2] - u[0] or ln.height != u[3] - u[1]:
-            self.bad("C08/bbox-not-union:line", u, tuple(ln.bbox))
+            self.bad(_bbox_sig("line", ln.bbox), u, tuple(ln.bbox))
         for g0, g1 in zip(glyphs, glyphs[1:]):
             if horizontal and not (g0.y0 <= g1.y1 and g1.y0 <= g0.y1):
                 self.bad("C08/line-mixed-orientation:horizontal", "consecutive glyphs share vertical extent", (g0.bbox, g1.bbox))
@@ -321,7 +337,7 @@ class Walk:
             return ""
         u = _union(ok)
         if tuple(bx.bbox) != u or (bx.x0, bx.y0, bx.x1, bx.y1) != u or bx.width != u[2] - u[0] or bx.height != u[3] - u[1]:
-            self.bad("C08/bbox-not-union:box", u, tuple(bx.bbox))
+            self.bad(_bbox_sig("box", bx.bbox), u, tuple(bx.bbox))
         if hb:
             ys = [ln.y1 for ln in ok]
             if any(a < b for a, b in zip(ys, ys[1:])):
@@ -372,7 +388,7 @@ class Walk:
             if comps:
                 u = _union(comps)
                 if tuple(node.bbox) != u or (node.x0, node.y0, node.x1, node.y1) != u or node.width != u[2] - u[0] or node.height != u[3] - u[1]:
-                    self.bad("C08/bbox-not-union:group", u, tuple(node.bbox))
+                    self.bad(_bbox_sig("group", node.bbox), u, tuple(node.bbox))
             text = "".join(texts)
             try:
                 got = node.get_text()
@@ -601,46 +617,7 @@ def chain_pdf(arr, n):
 
 
 def analyse_chain_direct(case):
-    """-> (problems, outcome)"""
-    global _HEAP
-    if _HEAP is None:
-        _HEAP = install_counting_heapq()
-    specs = [tuple(g) for g in case["glyphs"]]
-    bf, dv = case["boxes_flow"], case["detect_vertical"]
-    p = (bf, dv, False) + MARGIN_DEFAULT
-    page, chars = make_page(tuple(case["page"]), specs)
-    before = [_snap(c) for c in chars]
-    n = len(specs)
-    _HEAP.pops = 0
-    _HEAP.budget = 4 * n * n + 16
-    install_stable_id().reset()
-    try:
-        page.analyze(_lap(p))
-    except HeapBudgetExceeded as e:
-        return [("C08/nontermination:box-merging-loop", "terminates", str(e))], ("nonterm",)
-    except Exception as e:  # noqa
-        return [(exc_signature(e, True), "analysis returns", f"{type(e).__name__}: {str(e)[:100]}")], ("exc", type(e).__name__)
-    w = Walk(p, deep=True)
-    try:
-        w.container(page, "page", True)
-    except Exception as e:  # noqa  -- the oracle itself is iterative; anything raised here comes from a library call
-        w.bad(exc_signature(e, True), "hierarchy can be read", f"{type(e).__name__}: {str(e)[:100]}")
-    cnt = {}
-    for i in w.leaves:
-        cnt[i] = cnt.get(i, 0) + 1
-    lost = sum(1 for c in chars if cnt.get(id(c), 0) == 0)
-    dup = sum(1 for c in chars if cnt.get(id(c), 0) > 1)
-    if lost:
-        w.bad("C08/lost-item:glyph", "occurs once", f"{lost} glyphs absent from the hierarchy")
-    if dup:
-        w.bad("C08/duplicated-item:glyph", "occurs once", f"{dup} glyphs occur more than once")
-    if len(cnt) > len(chars) - lost:
-        w.bad("C08/foreign-item", "only original items", "unknown leaf")
-    if [_snap(c) for c in chars] != before:
-        w.bad("C08/altered-item:glyph", "unchanged", "a glyph changed")
-    nboxes = sum(1 for o in page if isinstance(o, LTTextBox))
-    depth = [x[1] for x in w.shape if x and x[0] == "G"]
-    return w.problems, ("direct", nboxes, tuple(depth[0]) if depth else None)
+    return analyse_custom(case, True)
 
 
 def analyse_chain_pdf(case):
@@ -696,12 +673,236 @@ def judge_chain(case):
     return analyse_chain_direct(case) if case["route"] == "direct" else analyse_chain_pdf(case)
 
 
+# ---- family "huge": pages (and analysed figures) that are huge in exactly one dimension, or in both.  Termination is
+# judged by a counted budget of Plane grid cells walked (pdfminer.utils.drange is wrapped), never by time.
+HUGE_VALUES = [10 ** 6, 10 ** 11, 2 ** 40]
+HUGE_PAGES = [("y", h) for h in HUGE_VALUES] + [("x", h) for h in HUGE_VALUES] + [("xy", h) for h in HUGE_VALUES] + [("-y", 10 ** 11), ("-x", 10 ** 11)]
+HUGE_FLOWS = [0.5, None, -1.0, 1.0]
+HUGE_CELL_BUDGET = 20_000_000   # legitimate work stays below ~MAX_CELLS^2 cells per query; the defect walks > 10^9
+
+
+class CellBudgetExceeded(Exception):
+    pass
+
+
+class CountingDrange:
+    def __init__(self, orig):
+        self.orig = orig
+        self.cells = 0
+        self.budget = 1 << 62
+
+    def __call__(self, v0, v1, d):
+        r = self.orig(v0, v1, d)
+        self.cells += len(r)
+        if self.cells > self.budget:
+            raise CellBudgetExceeded(f"more than {self.budget} grid-range steps in Plane")
+        return r
+
+
+def install_counting_drange():
+    import pdfminer.utils as U
+
+    if not isinstance(U.drange, CountingDrange):
+        U.drange = CountingDrange(U.drange)
+    return U.drange
+
+
+def huge_cases(ix):
+    kind, big = HUGE_PAGES[ix]
+    if kind == "y":
+        bbox = (0, 0, 600, big)
+    elif kind == "x":
+        bbox = (0, 0, big, 800)
+    elif kind == "xy":
+        bbox = (0, 0, big, big)
+    elif kind == "-y":
+        bbox = (0, -big, 600, 800)
+    else:
+        bbox = (-big, 0, 600, 800)
+    xs = [bbox[0] + 100, (bbox[0] + bbox[2]) // 2, bbox[2] - 200]
+    ys = [bbox[1] + 100, (bbox[1] + bbox[3]) // 2, bbox[3] - 200]
+    along = []
+    if "y" in kind:
+        along.append([(100, y) for y in ys])
+    if "x" in kind:
+        along.append([(x, 100) for x in xs])
+    if kind == "xy":
+        along.append(list(zip(xs, ys)))          # one diagonal placement
+    for pts in along:
+        for npts in (2, 3):
+            use = [pts[0], pts[-1]] if npts == 2 else pts
+            specs = []
+            for k, (x, y) in enumerate(use):
+                specs += [("abc"[k], x, y, 8, 8, "h"), ("ABC"[k], x + 8, y, 8, 8, "h")]
+            for bf in HUGE_FLOWS:
+                for container in ("page", "figure"):
+                    if kind == "xy" and pts is along[-1] and (container == "figure" or npts == 3 or bf in (-1.0, 1.0)):
+                        continue  # the diagonal walk over ~10^6 cells is expensive: one or two cases suffice
+                    yield {"family": "huge", "page": bbox if container == "page" else (0, 0, 600, 800),
+                           "figure": bbox if container == "figure" else None, "glyphs": specs, "boxes_flow": bf,
+                           "detect_vertical": False, "kind": kind, "huge": big}
+
+
+def analyse_custom(case, deep):
+    """direct analysis of a hand-built page (optionally: all glyphs inside a figure, all_texts=True) -> (problems, outcome)"""
+    global _HEAP
+    if _HEAP is None:
+        _HEAP = install_counting_heapq()
+    specs = [tuple(g) for g in case["glyphs"]]
+    bf, dv = case["boxes_flow"], case["detect_vertical"]
+    figbox = case.get("figure")
+    p = (bf, dv, figbox is not None) + MARGIN_DEFAULT
+    if figbox is not None:
+        page, _ = make_page(tuple(case["page"]), [])
+        fig = make_figure("F", tuple(figbox))
+        chars = [make_char(sp) for sp in specs]
+        for c in chars:
+            fig.add(c)
+        page.add(fig)
+        cont = fig
+    else:
+        page, chars = make_page(tuple(case["page"]), specs)
+        cont = page
+    before = [_snap(c) for c in chars]
+    n = len(specs)
+    _HEAP.pops = 0
+    _HEAP.budget = 4 * n * n + 16
+    dr = install_counting_drange()
+    dr.cells = 0
+    dr.budget = HUGE_CELL_BUDGET if case.get("family") == "huge" else (1 << 62)
+    install_stable_id().reset()
+    try:
+        page.analyze(_lap(p))
+    except HeapBudgetExceeded as e:
+        return [("C08/nontermination:box-merging-loop", "terminates", str(e))], ("nonterm",)
+    except CellBudgetExceeded as e:
+        return [("C08/nontermination:plane-grid-walk", f"at most {HUGE_CELL_BUDGET} grid steps", str(e))], ("nonterm",)
+    except Exception as e:  # noqa
+        return [(exc_signature(e, deep), "analysis returns", f"{type(e).__name__}: {str(e)[:100]}")], ("exc", type(e).__name__)
+    finally:
+        dr.budget = 1 << 62
+    w = Walk(p, deep=deep)
+    try:
+        w.container(cont, "page" if cont is page else "fig", True)
+    except Exception as e:  # noqa  -- the oracle itself is iterative; anything raised here comes from a library call
+        w.bad(exc_signature(e, deep), "hierarchy can be read", f"{type(e).__name__}: {str(e)[:100]}")
+    cnt = {}
+    for i in w.leaves:
+        cnt[i] = cnt.get(i, 0) + 1
+    lost = sum(1 for c in chars if cnt.get(id(c), 0) == 0)
+    dup = sum(1 for c in chars if cnt.get(id(c), 0) > 1)
+    if lost:
+        w.bad("C08/lost-item:glyph", "occurs once", f"{lost} glyphs absent from the hierarchy")
+    if dup:
+        w.bad("C08/duplicated-item:glyph", "occurs once", f"{dup} glyphs occur more than once")
+    if len(cnt) > len(chars) - lost:
+        w.bad("C08/foreign-item", "only original items", "unknown leaf")
+    if [_snap(c) for c in chars] != before:
+        w.bad("C08/altered-item:glyph", "unchanged", "a glyph changed")
+    nboxes = sum(1 for o in cont if isinstance(o, LTTextBox))
+    depth = [x[1] for x in w.shape if x and x[0] == "G"]
+    return w.problems, ("direct", nboxes, repr(depth[0]) if depth else None)
+
+
+# ---- family "device-forms": real PDFs through PDFPageAggregator; Form / image XObjects whose figure box is degenerate
+DF_BBOX = [(0, 0, 100, 100), (0, 0, 0, 0), (0, 0, 100, 0), (0, 0, 0, 100), (10, 10, 10, 50)]
+DF_MATRIX = [(1, 0, 0, 1, 0, 0), (0, 0, 0, 1, 0, 0), (1, 0, 0, 0, 20, 20), (2, 0, 0, 2, 5, 5)]
+DF_CM = [(1, 0, 0, 1, 0, 0), (1, 0, 0, 0, 50, 50), (0, 0, 0, 1, 50, 50), (0, 1, -1, 0, 300, 300)]
+DF_LAP = [None, (False,), (True,)]   # laparams: None / LAParams(all_texts=False) / LAParams(all_texts=True)
+
+
+def device_pdf(bbox, matrix, cm, nested):
+    from mc.pdfgen import Doc, Name as N, Stream, page_doc, type1_font
+
+    d = Doc()
+    f = d.add(type1_font("Helvetica"))
+    res = {"Font": {"F1": f}}
+    body = b"BT /F1 12 Tf 10 10 Td (xy) Tj ET 0 0 5 5 re f"
+    if nested:
+        inner = d.add(Stream({"Type": N("XObject"), "Subtype": N("Form"), "BBox": [0, 0, 50, 50], "Resources": {"Font": {"F1": f}}},
+                             b"BT /F1 10 Tf 5 5 Td (z) Tj ET 1 1 3 3 re f"))
+        res["XObject"] = {"Fm2": inner}
+        body += b" /Fm2 Do"
+    fm = d.add(Stream({"Type": N("XObject"), "Subtype": N("Form"), "BBox": list(bbox), "Matrix": list(matrix), "Resources": res}, body))
+    im = d.add(Stream({"Type": N("XObject"), "Subtype": N("Image"), "Width": 1, "Height": 1, "ColorSpace": N("DeviceGray"),
+                       "BitsPerComponent": 8}, b"\x80"))
+    cmb = b" ".join(str(v).encode() for v in cm)
+    content = (b"BT /F1 12 Tf 100 700 Td (A) Tj ET q " + cmb + b" cm /Fm1 Do Q q " + cmb + b" cm /Im1 Do Q "
+               b"BT /F1 12 Tf 300 700 Td (B) Tj ET")
+    return page_doc(content, fonts={"F1": f}, resources_extra={"XObject": {"Fm1": fm, "Im1": im}}, doc=d)
+
+
+def device_expected(nested):
+    exp = [("figure", "Fm1", ()), ("figure", "Im1", ()), ("glyph", "A", ()), ("glyph", "B", ()), ("glyph", "x", ("Fm1",)),
+           ("glyph", "y", ("Fm1",)), ("shape", "", ("Fm1",)), ("image", "Im1", ("Im1",))]
+    if nested:
+        exp += [("figure", "Fm2", ("Fm1",)), ("glyph", "z", ("Fm1", "Fm2")), ("shape", "", ("Fm1", "Fm2"))]
+    return sorted(exp)
+
+
+def analyse_device(case):
+    import io
+
+    from pdfminer.converter import PDFPageAggregator
+    from pdfminer.layout import LTContainer, LTCurve, LTImage
+    from pdfminer.pdfdocument import PDFDocument
+    from pdfminer.pdfinterp import PDFPageInterpreter, PDFResourceManager
+    from pdfminer.pdfpage import PDFPage
+    from pdfminer.pdfparser import PDFParser
+
+    lap = case["laparams"]
+    laparams = None if lap is None else LAParams(all_texts=bool(lap[0]))
+    install_stable_id().reset()
+    try:
+        doc = PDFDocument(PDFParser(io.BytesIO(case["pdf"])))
+        rm = PDFResourceManager()
+        dev = PDFPageAggregator(rm, laparams=laparams)
+        it = PDFPageInterpreter(rm, dev)
+        page = None
+        for pg in PDFPage.create_pages(doc):
+            it.process_page(pg)
+            page = dev.get_result()
+    except Exception as e:  # noqa
+        return [(exc_signature(e), "page is interpreted", f"{type(e).__name__}: {str(e)[:100]}")], ("exc", type(e).__name__)
+    got = []
+    todo = [(page, ())]
+    while todo:
+        o, path = todo.pop()
+        if isinstance(o, LTChar):
+            got.append(("glyph", o.get_text(), path))
+        elif isinstance(o, LTFigure):
+            got.append(("figure", o.name, path))
+            todo.extend((c, path + (o.name,)) for c in o)
+        elif isinstance(o, LTImage):
+            got.append(("image", o.name, path))
+        elif isinstance(o, LTCurve):
+            got.append(("shape", "", path))
+        elif isinstance(o, LTContainer):
+            todo.extend((c, path) for c in o)
+    got.sort()
+    want = device_expected(case["nested"])
+    problems = []
+    if got != want:
+        missing = [w for w in want if got.count(w) < want.count(w)]
+        extra = [g for g in got if got.count(g) > want.count(g)]
+        if missing:
+            kinds = sorted({m[0] for m in missing})
+            kind = "figure" if "figure" in kinds else kinds[0]
+            problems.append((f"C08/device-route:lost-item:{kind}", want, got))
+        if extra:
+            problems.append((f"C08/device-route:duplicated-or-foreign-item:{sorted({e[0] for e in extra})[0]}", want, got))
+    return problems, ("device", len(got))
+
+
 def shards(tier):
     out = [("short",)]
     out += [("pre", i, j) for i in range(len(POOL)) for j in range(len(POOL))]
     out += [("vcols", i) for i in range(len(VC_X0))]
-    out += [("deep-chain", "direct", arr, n, bf) for arr in DC_ARR for n in DC_N for bf in DC_FLOWS]
-    out += [("deep-chain", "pdf", arr, n, o) for arr in DC_ARR for n in DC_N for o in DC_OUT]
+    # the largest n (quadratic cost) only with boxes_flow 0.5 directly and through the xml route
+    out += [("deep-chain", "direct", arr, n, bf) for arr in DC_ARR for n in DC_N for bf in DC_FLOWS if n < DC_N[-1] or bf == 0.5]
+    out += [("deep-chain", "pdf", arr, n, o) for arr in DC_ARR for n in DC_N for o in DC_OUT if n < DC_N[-1] or o == "xml"]
+    out += [("huge", i) for i in range(len(HUGE_PAGES))]
+    out += [("device-forms", i) for i in range(len(DF_BBOX))]
     return out
 
 
@@ -738,6 +939,35 @@ def run_shard(shard, tier, st):
         if shard[2:] == ("stack", 50, 0.5):
             st.sample({k: (v if k not in ("glyphs", "pdf") else f"<{len(v)} items>") for k, v in case.items()})
         return
+    if shard[0] in ("huge", "device-forms"):
+        if shard[0] == "huge":
+            cases = list(huge_cases(shard[1]))
+        else:
+            cases = []
+            for m in DF_MATRIX:
+                for cm in DF_CM:
+                    for nested in (False, True):
+                        pdf = device_pdf(DF_BBOX[shard[1]], m, cm, nested)
+                        for lap in DF_LAP:
+                            cases.append({"family": "device-forms", "pdf": pdf, "bbox": DF_BBOX[shard[1]], "matrix": m, "cm": cm,
+                                          "nested": nested, "laparams": lap})
+        for k, case in enumerate(cases):
+            problems, outcome = analyse_custom(case, False) if shard[0] == "huge" else analyse_device(case)
+            st.states += 1
+            st.transitions += 1
+            if not (outcome and outcome[0] in ("exc", "nonterm")):
+                st.traces += 1
+            key = (case.get("kind"), case.get("huge"), case["boxes_flow"], case["figure"] is not None) if shard[0] == "huge" else (case["matrix"], case["cm"], case["nested"], case["laparams"])
+            st.case(None, nontrivial=True, outcome=(shard, key) + tuple(outcome))
+            st.add(shard[0].replace("-", "_") + "_cases", 1)
+            seen = set()
+            for sig, exp, obs in problems:
+                if sig not in seen:
+                    seen.add(sig)
+                    st.violation(sig, case, exp, obs, sig.split("/", 1)[1])
+            if k == 0 and shard[1] == 1:
+                st.sample({kk: (v if kk != "pdf" else f"<{len(v)} bytes>") for kk, v in case.items()})
+        return
     if shard[0] == "vcols":
         specs = None
         for specs in vcols_sequences(shard[1]):
@@ -768,8 +998,14 @@ def run_shard(shard, tier, st):
 
 
 def replay(case):
-    if case.get("family") == "deep-chain":
-        problems, _ = judge_chain(case)
+    if case.get("family") in ("deep-chain", "huge", "device-forms"):
+        if case["family"] == "deep-chain":
+            problems, _ = judge_chain(case)
+        elif case["family"] == "huge":
+            problems, _ = analyse_custom(case, False)
+        else:
+            case = dict(case, laparams=(None if case["laparams"] is None else tuple(case["laparams"])))
+            problems, _ = analyse_device(case)
         out = []
         seen = set()
         for sig, exp, obs in problems:
